@@ -351,6 +351,8 @@ def _run_seed(args):
     except Exception:
         import traceback
         return ("seed", sid, pid, "error", "internal: " + traceback.format_exc()[-300:])
+    if sid.startswith("R") and got == "violation":
+        return ("seed", sid, pid, "false-alarm", f"behaviour-preserving refactoring reported as a violation: {msg}")
     if want is None:
         return ("seed", sid, pid, "observed:" + got, msg)
     if got == want:
